@@ -182,7 +182,8 @@ class CSSMediaRule(cssrule.CSSRuleRules):
                 def atrule(expected, seq, token, tokenizer):
                     # TODO: get complete rule!
                     tokens = self._tokensupto2(tokenizer, token)
-                    atval = self._tokenvalue(token)
+                    # at-keywords are case-insensitive and may contain escapes
+                    atval = self._tokenvalue(token, normalize=True)
                     factories = {
                         '@page': cssutils.css.CSSPageRule,
                         '@media': CSSMediaRule,
